@@ -71,7 +71,8 @@ def model_vec(npr, spec):
 
 def data_vec(npr, shape, amp):
     y = (np.round(npr.uniform(-1, 1, shape) * 32) + 1j * np.round(npr.uniform(-1, 1, shape) * 32)) / 32
-    return y * 2.0 ** np.round(np.log2(np.maximum(amp, 1e-300)))
+    amp = np.where(np.isfinite(amp) & (amp > 0), amp, 1.0)
+    return y * 2.0 ** np.round(np.log2(amp))
 
 
 def chain_arrays(spec, model):
@@ -130,7 +131,7 @@ def run_case(spec, seed):
         _ = sim2.misfit
         wts = np.array(sim2.data.weights.data, dtype=float)
         amp = np.abs(np.array(spec['amp']))
-        y = data_vec(npr, sim2.survey.shape, amp * np.sqrt(np.where(np.isfinite(wts), wts, 1.0)) * amp)
+        y = data_vec(npr, sim2.survey.shape, amp * np.where(np.isfinite(wts), wts, 1.0))
         yin = y.copy()
         jt = np.array(sim2.jtvec(yin))
         grad_after = np.array(sim2.gradient)
@@ -168,7 +169,8 @@ def run_case(spec, seed):
     L.append(f"Eval vm_compute in map (dump3 out_c {nx} {ny} {nz}) (gradient_pipeline cj "
              f"{spec['aniso']} {nx} {ny} {nz} vol [{'; '.join(items)}] cx cy cz).")
     impl = dict(js=impl_js, rs=impl_rs, jt=jt, hyp=hyp, shape=(nx, ny, nz),
-                untouched=user_vector_untouched and bool(np.array_equal(yin, y)),
+                untouched=user_vector_untouched and bool(np.array_equal(yin, y, equal_nan=True)),
+                syn_finite=np.isfinite(np.array(sim.data.synthetic.data)),
                 jv=jv, obs_nan=~np.isfinite(np.array(sim.data.observed.data)),
                 grad_after_finite=bool(np.all(np.isfinite(grad_after))))
     return '\n'.join(L) + '\n', impl
@@ -215,13 +217,13 @@ def compare(spec, impl, out, dis):
                         'entry': [int(x) for x in kk], 'impl': float(gi[kk]),
                         'model': float(gm.real[kk])})
     for (d, pe) in impl['hyp']:
-        if abs(d - pe) > 1e-9 * max(abs(d), abs(pe), 1e-300):
+        if np.isfinite(d) and abs(d - pe) > 1e-9 * max(abs(d), abs(pe), 1e-300):
             dis.append({'what': 'Simulation.jvec entry is not <receiver row, solved field>',
                         'case': b, 'impl': str(d), 'model': str(pe)})
             break
     if not impl['untouched']:
         dis.append({'what': 'jvec/jtvec modified the user-provided vector', 'case': b})
-    if not np.all(np.isfinite(impl['jv'])):
+    if not np.all(np.isfinite(impl['jv'][impl['syn_finite']])):
         dis.append({'what': 'jvec has non-finite entries', 'case': b})
 
 
@@ -262,10 +264,11 @@ def vt_validation(ctx, dis, n):
 
 def correspondence(ctx):
     rng = ctx.rng
-    n = 24 if ctx.thorough else 8
+    n = 20 if ctx.thorough else 8
     off = rng.randrange(24)
     specs = [H.add_observed(H.gen_spec(rng, idx=off + 3 * i + i // 8, n_freq=1 if i % 2 else None,
-                                       n_src=1 if i % 3 == 0 else None), rng) for i in range(n)]
+                                       n_src=1 if i % 3 == 0 else None,
+                                       max_pairs=4 if ctx.thorough else 2), rng) for i in range(n)]
     texts, impls = [], []
     for i, sp in enumerate(specs):
         t, im = run_case(sp, rng.randrange(2**31))
